@@ -22,7 +22,7 @@ func init() { Register(c13{}) }
 func (c13) ID() string    { return "C13" }
 func (c13) Level() string { return "exploration" }
 func (c13) Rule() string {
-	return "case = 2-4 instances (writers and readers, mixed shapes/codecs/page sizes, each with its own seeded history) x scheduler policy {uniform, sticky(p), round-robin(q), switch-on-Put, switch-on-Get, PCT(d<=3)} x pool policy {lifo, fifo, random reuse; seeded capacities with garbage; prefilled pools; 0-3 prior instances run to completion first}. Three phases per run: solo reference of every instance on a pristine non-reusing pool, prior history, interleaved execution; every pool Get/Put, every ByteBuffer method, every sink write and every source read is a scheduling point. Oracle: interleaved bytes/records == solo reference, no write into a released buffer (poison checksum), no double release, no panic. One run in 40 is a fresh-process case instead: 2-4 instances (biased to twin shapes: same column names, different physical types) executed sequentially in several freshly started OS processes (each alone, all in two orders, one repeated last); an instance must produce the same output in every process. Non-trivial = the executed schedule pre-empted a task at least once while it held a pool buffer; distinct = distinct (workload digest, executed-schedule hash, pool policy)."
+	return "case = 2-4 instances (writers and readers, mixed shapes/codecs/page sizes, each with its own seeded history) x scheduler policy {uniform, sticky(p), round-robin(q), switch-on-Put, switch-on-Get, PCT(d<=3)} x pool policy {lifo, fifo, random reuse; seeded capacities with garbage; prefilled pools; 0-3 prior instances run to completion first}. Three phases per run: solo reference of every instance on a pristine non-reusing pool, prior history, interleaved execution; every pool Get/Put, every ByteBuffer method, every sink write and every source read is a scheduling point. Oracle: interleaved bytes/records == solo reference, no write into a released buffer (poison checksum), no double release, no panic. One run in 40 is a fresh-process case instead: 2-4 instances (biased to twin shapes: same column names, different physical types) executed sequentially in several freshly started OS processes (each alone, all in two orders, one repeated last); an instance must produce the same output in every process; every process lifetime has its own environment (GOMAXPROCS 1/4/2/16/3, GOGC 100/1/off/25, TZ), and in one such case in twelve instance 0 writes a single gzip page of more than 2 MiB. Non-trivial = the executed schedule pre-empted a task at least once while it held a pool buffer; distinct = distinct (workload digest, executed-schedule hash, pool policy)."
 }
 func (c13) Assumptions() []string {
 	return []string{
@@ -32,7 +32,7 @@ func (c13) Assumptions() []string {
 	}
 }
 func (c13) Probes() []string {
-	return []string{"pool/cross-task-reuse", "pool/prefill-consumed", "pool/poison-verified", "sched/uniform", "sched/sticky", "sched/roundrobin", "sched/onput", "sched/onget", "sched/pct", "get/lifo", "get/fifo", "get/random", "prior-instances", "tasks/reader", "tasks/writer", "tasks/with-own-fault", "tasks/reader-mode-count", "tasks/reader-mode-abandon", "tasks/writer-abandoned-without-Close", "preempt-while-holding", "procs/cases", "procs/twin-shapes-in-one-process"}
+	return []string{"procs/giant-gzip-page", "pool/cross-task-reuse", "pool/prefill-consumed", "pool/poison-verified", "sched/uniform", "sched/sticky", "sched/roundrobin", "sched/onput", "sched/onget", "sched/pct", "get/lifo", "get/fifo", "get/random", "prior-instances", "tasks/reader", "tasks/writer", "tasks/with-own-fault", "tasks/reader-mode-count", "tasks/reader-mode-abandon", "tasks/writer-abandoned-without-Close", "preempt-while-holding", "procs/cases", "procs/twin-shapes-in-one-process"}
 }
 func (c13) Runs(tier string) int {
 	if tier == "thorough" {
